@@ -49,12 +49,22 @@ def filterFixOnly (fo : Option FixOnly) (id : String) (vs : List Viol) : List Vi
     | some (true, _) => vs
     | some (false, lines) => vs.filter (fun v => v.line ∈ lines)
 
+/-- `Rule._order_violations_by_position`: stable sort by start index (`list.sort(key=…)`) -/
+def insertByStart (v : Viol) : List Viol → List Viol
+  | [] => [v]
+  | w :: r => if v.start ≤ w.start then v :: w :: r else w :: insertByStart v r
+
+/-- stable insertion sort by start index (structural, so that concrete instances reduce) -/
+def sortByStart : List Viol → List Viol
+  | [] => []
+  | v :: r => insertByStart v (sortByStart r)
+
 def editOf (sem : RuleSem) (v : Viol) : Edit Tok := ⟨v.start, v.stop, dropBof (sem.fixV v)⟩
 
 /-- `Rule.fix`: returns the new token list and whether `had_violations` was set -/
 def ruleFix (r : RuleCfg) (sem : RuleSem) (fo : Option FixOnly) (f : List Tok) : List Tok × Bool :=
   if r.fixable then
-    let vs := filterFixOnly fo r.id (sem.analyze f)
+    let vs := filterFixOnly fo r.id (sortByStart (sem.analyze f))
     (update f (vs.map (editOf sem)), !vs.isEmpty)
   else (f, false)
 
